@@ -73,11 +73,26 @@ def Mods.ofList : List (E × Int × E × Bool) → Mods
 
 /-! ### constructors as the code builds them (`slicer`, `composer`, `+`, `ptr`) — constants are folded -/
 
-def mkSlice (x : E) (pos size : Nat) : E :=
-  if pos = 0 ∧ size = x.size then x
-  else match x with
-    | .cst v sz => .cst (((v % 2 ^ sz) >>> pos) % 2 ^ size) size
-    | _ => .slc x pos size
+/-- `slicer(x, pos, size)`: the whole is the thing itself, a slice of a constant is a constant, a slice that
+    falls inside one part of a composition is the slice of that part (`comp.__getitem__`), a slice of a slice
+    is a slice of the underlying expression (`slc.__getitem__`). -/
+def mkSlice : E → Nat → Nat → E
+  | .cst v sz, pos, size =>
+      if pos = 0 ∧ size = sz then .cst v sz else .cst (((v % 2 ^ sz) >>> pos) % 2 ^ size) size
+  | .cat lo hi, pos, size =>
+      if pos = 0 ∧ size = lo.size + hi.size then .cat lo hi
+      else if pos + size ≤ lo.size then mkSlice lo pos size
+      else if lo.size ≤ pos then mkSlice hi (pos - lo.size) size
+      else .slc (.cat lo hi) pos size
+  | .slc y p' s', pos, size =>
+      if pos = 0 ∧ size = s' then .slc y p' s'
+      else if pos + size ≤ s' then mkSlice y (p' + pos) size
+      else .slc (.slc y p' s') pos size
+  | .reg n s, pos, size => if pos = 0 ∧ size = s then .reg n s else .slc (.reg n s) pos size
+  | .addc x c, pos, size => if pos = 0 ∧ size = x.size then .addc x c else .slc (.addc x c) pos size
+  | .op o l r s, pos, size => if pos = 0 ∧ size = s then .op o l r s else .slc (.op o l r s) pos size
+  | .load b d s be ms, pos, size =>
+      if pos = 0 ∧ size = s then .load b d s be ms else .slc (.load b d s be ms) pos size
 
 def mkCat (lo hi : E) : E :=
   match lo, hi with
@@ -89,6 +104,24 @@ def catList : List E → E
   | [] => .cst 0 0
   | [e] => e
   | e :: rest => mkCat e (catList rest)
+
+/-- bits `[p, p+n)` of `x`, the whole being `x` itself -/
+def mkWhole (x : E) (p n : Nat) : E := if p = 0 ∧ n = x.size then x else .slc x p n
+
+/-- composition of two parts read back from memory: adjacent slices of one stored value are one slice of it
+    (the real read returns the stored object, or one slice of it, in one piece; the model reads byte by byte
+    and puts the bytes together again here) -/
+def mkCatJ (lo hi : E) : E :=
+  match lo, hi with
+  | .slc x p s, .slc y q t => if x = y ∧ q = p + s then mkWhole x p (s + t) else mkCat lo hi
+  | .slc x p s, .cat (.slc y q t) rest =>
+      if x = y ∧ q = p + s then .cat (mkWhole x p (s + t)) rest else mkCat lo hi
+  | _, _ => mkCat lo hi
+
+def catListJ : List E → E
+  | [] => .cst 0 0
+  | [e] => e
+  | e :: rest => mkCatJ e (catListJ rest)
 
 /-- `x mod 2^w` of an integer -/
 def wrap (w : Nat) (x : Int) : Nat := (x % ((2 ^ w : Nat) : Int)).toNat
@@ -230,7 +263,7 @@ def memRead (m : MapSt) (base : E) (disp : Int) (l : Nat) (be : Bool) : E :=
   let (zk, off) := zref base disp
   let bytes := flattenItems ((zoneOf m.zones zk).read off l)
   let parts := readParts m.tbl base disp be 0 bytes
-  catList (if be then parts.reverse else parts)
+  catListJ (if be then parts.reverse else parts)
 
 def Entry.otherBase (base : E) (e : Entry) : Bool :=
   match e.loc with
